@@ -2,6 +2,7 @@
 import ChessVerif.Drv.Small
 import ChessVerif.Model.Lookup
 import ChessVerif.Spec.Geometry
+import ChessVerif.Model.MagicGen
 
 namespace Chess.Drv
 open Chess Chess.Spec
@@ -120,6 +121,37 @@ def handleZob : List String → Ans
   | ["turn", c] => match parseColor c with
     | some c => (showBB (Lookup.zobristTurn c), "-")
     | none => bad
+  | _ => bad
+
+/-! ### the magic-table generator (`magicgen <rook|bishop> <sq> <factor> <mask> <shift> <offset>`)
+
+The implementation's answer is a digest of the generated table read at the slot of every subset of the relevance
+mask (subsets in the generator's own enumeration order).  Model: the acceptance loop run on that multiplier, then the
+same read.  Specification: ray casting on every subset, and the mask must cover the inner squares of the rays. -/
+
+def digestStep (d : Nat) (w : BB) : Nat := (d * 1000003 + w.toNat) % 18446744073709551616
+
+def handleMagicGen : List String → Ans
+  | [piece, sq, factor, mask, shift, offset] =>
+    match sqIdx? sq, parseBB factor, parseBB mask, shift.toNat?, offset.toNat? with
+    | some s, some magic, some mask, some shift, some offset =>
+      let rook := piece = "rook"
+      let cast (x : BB) : BB := bbOfList (if rook then rookReach (occPred x) s else bishopReach (occPred x) s)
+      let bits := MagicGen.bitsOf mask
+      let n := 2 ^ bits.length
+      let subsets := (List.range n).map (MagicGen.deposit bits)
+      let specD := subsets.foldl (fun d x => digestStep d (cast x)) 0
+      let covers := (if rook then rookDirs else bishopDirs).all fun d =>
+        (walk d.1 d.2 7 s).all fun t => (step t d.1 d.2).isNone || mask.getLsbD t.val
+      let modelOut :=
+        if shift ≠ MagicGen.shiftFor mask then s!"shift-is-not-64-minus-bits"
+        else match MagicGen.trySquare magic mask cast offset (Array.replicate (offset + n) 0#64) with
+          | none => "rejected-by-the-acceptance-loop"
+          | some data =>
+            let d := subsets.foldl (fun d x => digestStep d (data.getD (MagicGen.indexOf magic shift offset x) 0#64)) 0
+            s!"covers={covers} digest={d}"
+      (modelOut, s!"covers=true digest={specD}")
+    | _, _, _, _, _ => bad
   | _ => bad
 
 end Chess.Drv
